@@ -1,71 +1,104 @@
 package gen
 
 import (
+	"runtime/debug"
 	"sort"
 	"unsafe"
 )
 
-// (C08) A second string of MaxStrLen bytes that equals the maximum string except for ONE flipped bit,
+// (C08) Second strings of MaxStrLen bytes that equal the maximum string except for ONE flipped bit,
 // so that comparisons of two 2^28-byte strings meet a difference at word indexes beyond int32.
+//
+// Go strings are immutable: a correct library may remember a string by its data pointer and length.
+// Therefore every twin is a string OF ITS OWN: its memory is written once, before the string is handed
+// out for the first time, and never again. The same flipBit gives the same string (same memory) again.
 
-var maxTwinBuf []byte
-var maxTwinFlip int64 = -1
-
-// MaxStringTwin returns a process-wide string of exactly MaxStrLen bytes that equals the maximum string
-// (by its description) except that bit flipBit (most significant bit of each byte first, counted from the
-// start) is inverted; flipBit < 0 gives an exact twin. The memory is private to the twin (not shared with
-// MaxString) and is re-used by the next call: a string returned earlier must not be used any more.
-// Almost all of it stays untouched zero pages.
-func MaxStringTwin(flipBit int64) string {
-	if maxTwinBuf == nil {
-		maxTwinBuf = make([]byte, MaxStrLen)
-		for k, v := range maxStrSet {
-			maxTwinBuf[k] = v
-		}
-	}
-	if maxTwinFlip >= 0 { // undo the previous flip: back to the description
-		maxTwinBuf[maxTwinFlip/8] = maxStrSet[int(maxTwinFlip/8)]
-		maxTwinFlip = -1
-	}
-	if flipBit >= 0 && flipBit < 8*MaxStrLen {
-		maxTwinBuf[flipBit/8] ^= 0x80 >> uint(flipBit%8)
-		maxTwinFlip = flipBit
-	}
-	return unsafe.String(&maxTwinBuf[0], MaxStrLen)
+type maxTwin struct {
+	flip int64  // the inverted bit (< 0: none)
+	buf  []byte // private memory of this twin; never written after construction
+	used int64  // last use (for dropping the least recently used one)
 }
 
-// MaxTwinDamage reports a byte of the twin that matches neither the description nor the current flip.
-func MaxTwinDamage() (int, bool) {
-	if maxTwinBuf == nil {
-		return 0, false
+// maxTwinsAlive bounds the memory: 5 twins + the maximum string itself = 1.5 GiB of address space (almost all of it
+// untouched zero pages). A quick / thorough run uses five different flips, so nothing is dropped there.
+const maxTwinsAlive = 5
+
+var maxTwins []*maxTwin
+var maxTwinClock int64
+
+// MaxStringTwin returns a string of exactly MaxStrLen bytes that equals the maximum string (by its
+// description) except that bit flipBit (most significant bit of each byte first, counted from the start) is
+// inverted; flipBit < 0 (or beyond the string) gives an exact twin. The memory is private to this twin
+// (shared neither with MaxString nor with the twin of another flipBit) and is never modified once the
+// string exists. When more than maxTwinsAlive different twins have been asked for, the least recently used
+// one is dropped (left to the garbage collector, not rewritten: a string that somebody still holds stays valid).
+func MaxStringTwin(flipBit int64) string {
+	if flipBit < 0 || flipBit >= 8*MaxStrLen {
+		flipBit = -1
 	}
-	want := func(j int) byte {
-		v := maxStrSet[j]
-		if maxTwinFlip >= 0 && int(maxTwinFlip/8) == j {
-			v ^= 0x80 >> uint(maxTwinFlip%8)
+	maxTwinClock++
+	for _, t := range maxTwins {
+		if t.flip == flipBit {
+			t.used = maxTwinClock
+			return unsafe.String(&t.buf[0], MaxStrLen)
 		}
-		return v
+	}
+	if len(maxTwins) >= maxTwinsAlive {
+		lru := 0
+		for i, t := range maxTwins {
+			if t.used < maxTwins[lru].used {
+				lru = i
+			}
+		}
+		maxTwins = append(maxTwins[:lru:lru], maxTwins[lru+1:]...)
+		debug.FreeOSMemory() // the dropped 256 MiB go back before the next 256 MiB are taken
+	}
+	t := &maxTwin{flip: flipBit, buf: make([]byte, MaxStrLen), used: maxTwinClock}
+	for k, v := range maxStrSet {
+		t.buf[k] = v
+	}
+	if flipBit >= 0 {
+		t.buf[flipBit/8] ^= 0x80 >> uint(flipBit%8)
+	}
+	maxTwins = append(maxTwins, t)
+	return unsafe.String(&t.buf[0], MaxStrLen)
+}
+
+func (t *maxTwin) want(j int) byte {
+	v := maxStrSet[j]
+	if t.flip >= 0 && int(t.flip/8) == j {
+		v ^= 0x80 >> uint(t.flip%8)
+	}
+	return v
+}
+
+// MaxTwinDamage reports a byte of a twin that is alive and matches neither the description nor its flip.
+func MaxTwinDamage() (int, bool) {
+	if len(maxTwins) == 0 {
+		return 0, false
 	}
 	ks := make([]int, 0, len(maxStrSet))
 	for k := range maxStrSet {
 		ks = append(ks, k)
 	}
 	sort.Ints(ks)
-	for _, k := range ks {
-		for d := -1; d <= 1; d++ {
-			if j := k + d; j >= 0 && j < MaxStrLen && maxTwinBuf[j] != want(j) {
+	for _, t := range maxTwins {
+		for _, k := range ks {
+			for d := -1; d <= 1; d++ {
+				if j := k + d; j >= 0 && j < MaxStrLen && t.buf[j] != t.want(j) {
+					return j, true
+				}
+			}
+		}
+		if t.flip >= 0 {
+			if j := int(t.flip / 8); t.buf[j] != t.want(j) {
 				return j, true
 			}
 		}
-	}
-	if maxTwinFlip >= 0 {
-		if j := int(maxTwinFlip / 8); maxTwinBuf[j] != want(j) {
-			return j, true
-		}
-	}
-	for j := 5; j < MaxStrLen; j += 1 << 19 {
-		if maxTwinBuf[j] != want(j) {
-			return j, true
+		for j := 5; j < MaxStrLen; j += 1 << 19 {
+			if t.buf[j] != t.want(j) {
+				return j, true
+			}
 		}
 	}
 	return 0, false
